@@ -193,6 +193,14 @@ C09ok(E, tags, q) ==
      \* events the source starts to emit after unsubscribe returned are not delivered (the i-th delivery carries the i-th emission)
      /\ (unsub # 0 /\ HasTag(tags, "observe_on")) => \A i \in 1..Len(d) : NthPos(E, "cbstart", 1, i) > unsub => NthPos(E, "emitcall", 1, i) < unsub
 
+\* ---------------------------------------------------------------- C04 across threads: an error is still the last event, once, unchanged, after
+\* every item emitted before it, when it crosses a scheduler hand-over (observe_on / subscribe_on / delay), and retry /
+\* on_error_resume_next resubscribe as specified when the failing attempt ran on another thread.  q.expect is what the
+\* definition gives for the case's scripts: [[kind, value], ...] of subscriber 1.
+C04ok(E, tags, q) == HasTag(tags, "errpass") =>
+  /\ (q.fin = "ok" \/ (q.fin = "stuck" /\ q.nblocked = q.nparked))     \* (an idle parked worker is C15's question)
+  /\ LET d == DeliveredEvents(E, 1) IN Len(d) = Len(q.expect) /\ \A i \in 1..Len(d) : d[i][1] = q.expect[i][1] /\ d[i][2] = q.expect[i][2]
+
 \* ---------------------------------------------------------------- C15: worker threads exit when the subscription ends
 \* runtime events: spawn(v = new thread) / exit (with the virtual time clk of every event).  period = the case's timer period (ms).
 SubEnd(E, u) == LET ps == { p \in Pos(E) : (E[p].ev = "cbend" /\ E[p].u = u /\ E[p].k \in {"e", "c"}) \/ (E[p].ev = "unsubret" /\ E[p].u = u) }
@@ -257,7 +265,7 @@ C13ok(E, tags, q, period) ==
 
 Judge(E, tags, q) ==
   LET fin == q.fin IN
-  [C09 |-> IF C09ok(E, tags, q) THEN "ok" ELSE "bad", C15 |-> IF C15ok(E, tags, q, q.period) THEN "ok" ELSE "bad",
+  [C04 |-> IF C04ok(E, tags, q) THEN "ok" ELSE "bad", C09 |-> IF C09ok(E, tags, q) THEN "ok" ELSE "bad", C15 |-> IF C15ok(E, tags, q, q.period) THEN "ok" ELSE "bad",
    C16 |-> IF C16ok(E, tags, q, q.period) THEN "ok" ELSE "bad", C13 |-> IF C13ok(E, tags, q, q.period) THEN "ok" ELSE "bad", C18 |-> IF ~HasTag(tags, "tovec") \/ C18ok(E, q) THEN "ok" ELSE "bad",
    C08 |-> IF ~(HasTag(tags, "queue") \/ HasTag(tags, "default_queue")) \/ C08ok(E, tags, q) THEN "ok" ELSE "bad",
    C19 |-> IF C19ok(E) THEN "ok" ELSE "bad", C05 |-> IF C05ok(E) THEN "ok" ELSE "bad",
